@@ -1282,7 +1282,7 @@ pub fn check(tier: Tier) -> i32 {
         stats: &rep.stats,
         exhaustive: None,
     });
-    println!(
+    out!(
         "C08 {}: {} histories ({} loader instances), {} distinct non-trivial, {:.1}s, violations={}",
         tier.name(), rep.runs, rep.stats.processes, rep.nontrivial_distinct, rep.wall_s, newv
     );
